@@ -312,11 +312,11 @@ def c14_body(res, thorough):
 
 
 def c15(res, thorough):
-    setmap_check(res, thorough, "C15", "tree", mixed=(4000, 50000), spec="mapr", history_oracle=steps.minmax_oracle, modules=["CdsVerif.Props.C15SkipList"],
+    setmap_check(res, thorough, "C15", "tree", mixed=(4000, 50000), spec="mapr", history_oracle=steps.minmax_oracle, modules=["CdsVerif.Props.C15SkipList", "CdsVerif.Props.C15SkipListUpper"],
                  mnv=["SkipListSet (HP): Lean machine of the REPAIRED code (Algo/SkipList: towers, find_position with helping, insert level by level with renew_insert_position, try_remove_at, fast and slow find paths; Cfg.markTest = the mark test added by b95a3c3), "
                       "tied by trace conformance (hidden variant iskipset_hp_named) with a structural predicate evaluated on every replayed state (every level sorted and a sub-list of the level below, a level-0 mark implies all upper marks, quiescence implies no marked node); "
                       "theorems: marked words frozen, level 0 marked only by the successful erase, the fast path answers 'found' only after reading an unmarked level-0 link, and WITHOUT the mark test the machine has a complete run whose history is proved non-linearizable "
-                      "(C15_skiplist_not_linearizable_without_mark_test: the defect fixed by b95a3c3). For the repaired machine: inductive invariant over all schedules (level 0 a strictly sorted chain from the head, tower words null or published items tall enough, level-0 mark implies all upper marks, head never marked: C15_skiplist_invariant / _structure / _level0), erase marks once (C15_skiplist_mark_once) and linearizability to Spec.map for every run (C15_skiplist_linearizable, ghost log with a helped linearization point for the eraser that loses the race on the level-0 mark); the upper-level clauses (every level a sorted sub-list of the one below) are NOT proved, they are checked on every replayed state and by C18 snapshots",
+                      "(C15_skiplist_not_linearizable_without_mark_test: the defect fixed by b95a3c3). For the repaired machine: inductive invariant over all schedules (level 0 a strictly sorted chain from the head, tower words null or published items tall enough, level-0 mark implies all upper marks, head never marked: C15_skiplist_invariant / _structure / _level0), erase marks once (C15_skiplist_mark_once) and linearizability to Spec.map for every run (C15_skiplist_linearizable, ghost log with a helped linearization point for the eraser that loses the race on the level-0 mark); the upper levels: every tower word points forward in key order and every level chain is non-decreasing (C15_skiplist_links_forward, C15_skiplist_levels_nondecreasing) are proved; the sub-list clause itself (UpperOk) is NOT an invariant theorem: it is evaluated on every replayed state (invB), and C15_invB_skipWf proves that a state passing invB is well-formed in exactly the sense of C18 (skipWf of the full dump)",
                       "EllenBinTree, BronsonAVLTreeMap, SkipListMap and the RCU forms: no algorithm model; decided by histories"],
                  partial=["skip list: upper levels sorted / sub-list of the level below as an invariant for all schedules: not proved (replayed states and C18 snapshots only)", "EllenBinTree / Bronson machines: none; decided by histories"])
     tie_A(res, "tree", "skiplist",
@@ -483,12 +483,13 @@ def c18(res, thorough):
                    "that every quiescent state reached by the real code is well-formed is decided on explored schedules (the dump of each final state is judged by the Lean functions), not proved about algorithm models",
                    "covered variants: MichaelList, LazyList, IterableList (HP), SkipListSet (HP, RCU gpi), EllenBinTreeSet (HP), BronsonAVLTreeMap (RCU gpi, relaxed insert), SplitListSet over MichaelList (HP, with and without colliding hashes), each with and without item counter; "
                    "DHP and the other RCU flavours share the code paths and are not dumped"],
-             partial=["'every reachable quiescent state is well-formed' as a theorem: proved for the MichaelList, LazyList, SplitListSet machines and for level 0 of the SkipListSet machine (Props/C18Reach, every reachable state, not only quiescent ones; "
-                      "Michael and Lazy additionally tied by comparing the real final structure with the machine's final state); NOT proved: skip-list upper levels (sub-list clause), SplitListSet item counter and 'every linked dummy is published at quiescence', "
-                      "EllenBinTree, BronsonAVLTreeMap, IterableList (explored schedules only)"])
+             partial=["'every reachable quiescent state is well-formed' as a theorem: proved for the MichaelList, LazyList, SplitListSet machines (SplitListSet incl. the item counter = number of keys and the bucket-table dump at quiescence: "
+                      "C18_splitlist_quiescent_size, C18_splitlist_quiescent_table_dump) and for level 0 of the SkipListSet machine (Props/C18Reach, every reachable state, not only quiescent ones; "
+                      "Michael, Lazy and SplitList additionally tied by comparing the real final structure with the machine's final state); skip-list upper levels: links point forward and levels are non-decreasing (proved), the sub-list clause is evaluated on every replayed state "
+                      "and C15_invB_skipWf proves that this evaluation implies skipWf of the full dump; NOT proved: the sub-list clause as an invariant, EllenBinTree, BronsonAVLTreeMap, IterableList (explored schedules only)"])
     res.cov["rule"] = ("cases = (client program, schedule) pairs; after each program the main thread dumps the structure; distinct = distinct (variant, atomic-operation sequence hash); "
                        "non-trivial = contains a failed CAS or a back-off; sequential runs (one thread) are included as a separate run")
-    lean_step(res, ["CdsVerif.Props.C18", "CdsVerif.Props.C18Reach"], thorough)
+    lean_step(res, ["CdsVerif.Props.C18", "CdsVerif.Props.C18Reach", "CdsVerif.Props.C15SkipListUpper"], thorough)
     n = 30000 if thorough else 6000
     steps.tie_S(res, "snap", [{"args": ["--mode", "mixed", "--threads", "3", "--ops", "5"], "cases": n},
                               {"args": ["--mode", "mixed", "--threads", "4", "--ops", "4"], "cases": n // 2},
@@ -498,6 +499,7 @@ def c18(res, thorough):
     # replayed case must be exactly the rendering (snapOf / memSnapOf) of the machine state the replay ended in
     tie_A(res, "list", "michael", [{"args": ["--mode", "mixed", "--threads", "4", "--ops", "5", "--variant", "imichael_hp_named"], "cases": 8000 if thorough else 1000}])
     tie_A(res, "list", "lazy", [{"args": ["--mode", "mixed", "--threads", "4", "--ops", "5", "--variant", "ilazy_hp_named"], "cases": 8000 if thorough else 1000}])
+    tie_A(res, "hashset", "splitlist", [{"args": ["--mode", "mixed", "--threads", "4", "--ops", "5", "--variant", "isset_michael_hp_named"], "cases": 8000 if thorough else 1000}])
     # the leftovers that matter are rare (a marked node left linked, a stale height): dense runs on the variants that can have them
     for v in ("michael_hp", "michael_hp_cnt", "split_michael_hp", "bronson_gpi", "bronson_gpi_cnt", "bronson_gpi_relaxed", "skip_hp", "lazy_hp"):
         steps.tie_S(res, "snap", [{"args": ["--mode", "mixed", "--threads", "3", "--ops", "5", "--variant", v], "cases": 16000 if thorough else 5000}], label="snap-dense")
@@ -531,10 +533,24 @@ def c19(res, thorough):
 def c20(res, thorough):
     base_cov(res, ["allocators, functor bodies", "size()/empty()/clear() and disposer counts are not part of the generated programs of the set/map clients (item counters are checked by the queue client's *_ic variant only)",
                    "variants are those of the concurrent clients (about 190); the full trait matrix of test/unit is not enumerated"],
-             partial=["functor argument/new-flag logs and disposer counts: only partly observable through the payload returned by find/erase functors"])
+             partial=["functor argument/new-flag logs and disposer counts: only partly observable through the payload returned by find/erase functors",
+                      "C20 as a theorem: proved for the 14 machines of Props/C20Seq and the flat-combining containers (C20_<name>_sequential: every single-threaded complete run returns exactly the results of Spec.lifo / fifo / bfifo / map / deque / the deterministic max-pq; "
+                      "generic lemma: a sequential history is linearizable iff it is the specification's own run); BasketQueue (proved against the pool only), MSPriorityQueue, SegmentedQueue, EllenBinTree, Bronson, CuckooSet (sequential model with insert / erase laws in Props/C17Cuckoo), "
+                      "IterableList and the container:: wrappers: decided by judged sequential histories only"])
     res.cov["rule"] = ("single-threaded operation sequences (one scheduled thread, 10-14 operations, key space 2-8, colliding hashes) on every variant of every client, judged against the STRICT sequential "
                        "specification (Spec.map / fifo / bfifo / lifo / deque / maxpq) by the verified checker; distinct = distinct (variant, program); non-trivial = every case (each has at least one failing and one succeeding operation is not required)")
-    lean_step(res, "CdsVerif.Props.C20", thorough)
+    lean_step(res, ["CdsVerif.Props.C20", "CdsVerif.Props.C20Seq"], thorough)
+    # Props/C20Seq: a single-threaded complete run of each proved machine returns exactly what the sequential specification returns.
+    # Tie of those corollaries inside this check: single-threaded traces of the real code replayed against the same machines.
+    from elim_pre import elim_pre
+    ns = 3000 if thorough else 400
+    for client, model, variant, pre in (("stack", "treiber", "treiber_hp", None), ("stack", "elim", "treiber_hp_elim_named", elim_pre),
+                                        ("queue", "msqueue", "imsqueue_hp", None), ("queue", "moir", "imoir_hp", None), ("queue", "rwqueue", "rwqueue_named", None),
+                                        ("queue", "optimistic", "ioptimistic_named", None), ("vyukov", "vyukov", "dyn", None),
+                                        ("list", "michael", "imichael_hp_named", None), ("list", "lazy", "ilazy_hp_named", None),
+                                        ("hashset", "splitlist", "isset_michael_hp_named", None), ("hashset", "feldman", "ifset_hp_named", None),
+                                        ("tree", "skiplist", "iskipset_hp_named", None), ("striped", "striped", "tie_striping", None), ("striped", "striped", "tie_refinable", None)):
+        tie_A(res, client, model, [{"args": ["--mode", "seq", "--threads", "1", "--ops", "12", "--variant", variant], "cases": ns}], label="seq:" + client + ":" + model, pre=pre)
     # sequential cases are cheap (about 2500 per second): many per variant, so that rare shapes are reached
     # (e.g. Bronson's update(key, f, false) on a routing node needs insert x3 / erase of the two-child node / update)
     n = 100000 if thorough else 24000
